@@ -7,10 +7,11 @@ P = "decaylanguage.dec.dec."
 LINE = ["wf_resolved(decay_mode)"]
 NOTLINE = {"RuntimeError": "decay_mode.data != 'decayline'"}
 
-contract(P + "get_decay_mother_name", types={"decay_tree": "obj:Tree"}, requires=["wf_resolved(decay_tree)"],
+contract(P + "get_decay_mother_name", types={"decay_tree": "obj:Tree"},
+         requires=["typ(decay_tree.data, 'str')", "implies(decay_tree.data == 'decay', table_head(decay_tree))"],
          ensures=["same(result, decay_tree.children[0].children[0].value)", "typ(result, 'str')"],
          raises={"RuntimeError": "decay_tree.data != 'decay'"},
-         properties=["C01", "C03", "C09"])
+         returns="str", properties=["C01", "C03", "C09"])
 
 contract(P + "get_branching_fraction", types={"decay_mode": "obj:Tree"}, requires=LINE,
          # the branching fraction is the numeric literal
